@@ -66,6 +66,7 @@ def check_C12(tier, seed):
         e = events[v["matched"]] if not v["accepted"] else next(x for x in events if x["ev"] == "atom" and (x["type"], x["path"] or "value") == unbound_all[0])
         what = {"atom": f"atom '{e.get('path')}' of {e.get('type')} is not bound by the challenge (in_transcript={e.get('in_transcript')}, challenge changed={e.get('changed')})",
                 "pair": f"builder / prover challenge differs from proof / verifier challenge for {e.get('type')}",
+                "bytesext": f"byte input of length {e.get('len')}: {e.get('variant')} leaves the challenge unchanged",
                 "hash": f"challenge of {e.get('type')} is not SHA3-256(transcript) reduced",
                 "ctxbyte": f"context byte {e.get('pos')} of the {e.get('proof')} proof does not influence the challenge",
                 "ctxset": f"{e.get('contexts')} different contexts give only {e.get('distinct_challenges')} different challenges for one {e.get('proof')} proof",
